@@ -20,7 +20,8 @@ EXPECTED_PROBES = ["distinguishing_reuse", "lazy_resumed_after_switch",
                    "reissued_ops"]
 
 SWITCH_PATHS = ["set_mode_default", "set_mode_global", "dto_opt", "dto_env",
-                "main_opt", "main_env", "equiv", "none", "dto_noenv", "case"]
+                "main_opt", "main_env", "equiv", "none", "dto_noenv", "case",
+                "dto_static"]
 
 HOT_YEARS = [-2000, -401, -400, -100, -4, -1, 0, 1, 4, 100, 400, 1600, 1700,
              1900, 1970, 1999, 2000, 2001, 2004, 2019, 2020, 2023, 2024,
@@ -165,7 +166,12 @@ OP_KINDS = ["diy", "dim", "wiy", "diyr", "leap", "cwds", "owds", "d1ad",
             "rec_valid", "rec_after", "rec_getitem", "rec_open", "rec_next",
             "hold", "held_add", "held_reprs", "dto_proc", "dto_diff", "cli",
             "trunc_add", "consts", "props_epoch", "xuse", "xuse",
-            "from_epoch_l", "sh_proc", "sh_now"]
+            "from_epoch_l", "sh_proc", "sh_now", "sh_fmt", "sh_iter",
+            "sh_parts"]
+
+
+NOMINAL_DURS = ["P1Y", "P1M", "P1Y2M3DT4H", "P400D", "PT36H", "-P1Y", "P13M",
+                "P4Y", "P100Y"]
 
 
 def gen_op(rng, kind, hot, handles):
@@ -307,6 +313,20 @@ def gen_op(rng, kind, hot, handles):
         offs = [rng.choice(DURS) for _ in range(rng.choice([0, 1, 1, 2]))]
         return ["sh_proc", gen_point(rng, hot), offs,
                 rng.choice([None, None] + DUMP_FORMATS)]
+    if kind == "sh_parts":
+        # the steps process_time_point_str / diff_time_point_strs are made
+        # of, called one by one as a host program may
+        return ["sh_parts", gen_point(rng, hot), gen_point(rng, hot),
+                rng.choice(DURS), rng.choice(DUMP_FORMATS + ["%a %d %b %Y"])]
+    if kind == "sh_fmt":
+        # ... its other public methods too: a duration as a total (years and
+        # months count with the calendar's year length)
+        return ["sh_fmt", rng.choice(NOMINAL_DURS), rng.choice(
+            ["s", "S", "m", "h", "H"]), rng.random() < 0.5]
+    if kind == "sh_iter":
+        return ["sh_iter", gen_rec(rng, hot), rng.choice(
+            [None, "CCYY-DDD", "%Y-%m-%d"]), rng.choice([2, 4, 8]),
+            rng.random() < 0.5]
     if kind == "sh_now":
         # ... also for the current time (the simulated clock stands within
         # one second for a whole run, so the text is reproducible)
@@ -515,7 +535,15 @@ def directed_ops():
     for xi, (xkind, text) in enumerate(X_VALUES):
         for action in X_ACTIONS[xkind]:
             ops.append(["xuse", "x%d" % xi, xkind, text, action])
-    ops += [["sh_now", "now", ["P1M"], None], ["sh_now", None, [], "CCYY-DDD"],
+    ops += [["sh_parts", "2000-02-28T00:00:00Z", "2001-03-01T00:00:00Z", "P1M",
+             "CCYY-DDD"],
+            ["sh_parts", "20231231T000000Z", "1999-W52-7T00Z", "-P59D",
+             "%a %d %b %Y"],
+            ["sh_fmt", "P1Y", "s", False], ["sh_fmt", "P1Y2M3DT4H", "h", False],
+            ["sh_fmt", "P13M", "m", True],
+            ["sh_iter", "R/2000-01-31T00:00:00Z/P1M", None, 4, False],
+            ["sh_iter", "R4/P1Y/2000-02-29T00:00:00Z", "CCYY-DDD", 4, True],
+            ["sh_now", "now", ["P1M"], None], ["sh_now", None, [], "CCYY-DDD"],
             ["sh_now", "ref", ["-P60D"], None], ["cli", ["now", "--utc"]],
             ["from_epoch_l", 0], ["from_epoch_l", 86400 * 45],
             ["from_epoch_l", 951782400], ["from_epoch_l", -86400 * 400],
@@ -792,6 +820,37 @@ def do_op(sim, client, op):
             if kind in ("sh_proc", "sh_now"):
                 return sim.oper.process_time_point_str(
                     op[1], op[2] or None, op[3])
+            if kind == "sh_parts":
+                oper = sim.oper
+                p1, fmt1 = oper.date_parse(op[1])
+                p2, _ = oper.date_parse(op[2])
+                shifted = oper.date_shift(p1, op[3])
+                dur, sign = oper.date_diff(p1, p2)
+                out = [canon(p1), fmt1, canon(shifted),
+                       oper.date_format(fmt1, shifted), sign, canon(dur),
+                       oper.date_diff_format(None, dur, sign),
+                       oper.date_diff_format("y,m,d,h,M,s", dur, sign)]
+                try:
+                    out.append(oper.date_format(op[4], shifted))
+                except Exception as exc:
+                    out.append("EXC:" + type(exc).__name__)
+                return out
+            if kind in ("sh_fmt", "sh_iter"):
+                oper = sim.oper
+                if op[-1]:          # the client's own operator instead
+                    if client.dto is None:
+                        from metomi.isodatetime.datetimeoper import (
+                            DateTimeOperator)
+                        client.dto = DateTimeOperator(
+                            utc_mode=True,
+                            calendar_mode=sim.effective_sp(client))
+                        sim.note_mode(sim.effective_sp(client))
+                    oper = client.dto
+                if kind == "sh_fmt":
+                    return oper.format_duration_str(op[1], op[2])
+                import itertools
+                return list(itertools.islice(
+                    oper.iter_recurrence_str(op[1], op[2]), op[3]))
             if kind == "cli":
                 return sim.client_cli(client, op[1])
             if kind == "trunc_add":
@@ -981,6 +1040,8 @@ class Sim(object):
                 data.Calendar.default().set_mode(sp)
             elif path == "set_mode_global":
                 data.CALENDAR.set_mode(sp)
+            elif path == "dto_static":
+                DateTimeOperator.set_calendar_mode(sp)
             elif path == "dto_opt":
                 DateTimeOperator(calendar_mode=sp)
             elif path == "dto_env":
